@@ -332,8 +332,9 @@ func (o *allocOracle) after(sys verifrt.System, hist []verifrt.Event, ev verifrt
 	for k := range statusHold {
 		sort.Strings(statusHold[k])
 	}
-	if (prop == "C06" || prop == "C11") && isNew {
+	if (prop == "C06" || prop == "C11") && isNew && s.c.pools != nil {
 		// no leak / no ghost: the controller's memory equals the statuses whenever it has no pending work
+		// (a controller restarted on a configuration it refuses has no pools and processes no service at all)
 		if fmt.Sprint(map[string][]string(statusHold)) != fmt.Sprint(map[string][]string(holders)) {
 			cause := "no-fault"
 			for _, e := range hist {
